@@ -510,7 +510,17 @@ def run(chk: Check) -> None:
             cons[norm(n.args[1])] = prog.fold(mod, n.args[0])
     def _fn(name):   # (defined here or imported from a helper module of the package)
         r_ = prog.resolve(mod, ast.Name(id=name, ctx=ast.Load()))
-        return r_ if isinstance(r_, FuncInfo) else None
+        if isinstance(r_, FuncInfo):
+            return r_
+        # ``name = make_it(Bundle)``: the closure a factory of the package defines and returns
+        v_ = mod.constants.get(name)
+        if isinstance(v_, ast.Call):
+            fac = prog.resolve(mod, v_.func) if isinstance(v_.func, (ast.Name, ast.Attribute)) else None
+            if isinstance(fac, FuncInfo):
+                rets_ = [x for x in ast.walk(fac.node) if isinstance(x, ast.Return) and isinstance(x.value, ast.Name)]
+                if len(rets_) == 1 and rets_[0].value.id in fac.nested:
+                    return fac.nested[rets_[0].value.id]
+        return None
     br = _fn('_bundle_representer')
     bc = _fn('_bundle_constructor')
     chk.need(br is not None and bc is not None, 'bundle representer / constructor not found')
@@ -518,7 +528,14 @@ def run(chk: Check) -> None:
     ok = reps.get('Bundle') == '_bundle_representer' and cons.get('_bundle_constructor') is not None and tag_rep == [cons.get('_bundle_constructor')]
     chk.ob('TAB-yaml', 'persistence._bundle_representer', ok, f'Bundle is represented under the tag its constructor is registered for ({tag_rep} / {cons.get("_bundle_constructor")})',
            kind='bundle-tag')
-    ok = any(norm(c.func) == 'Bundle.__new__' for c in calls_in_func(bc)) and any(last_name(c) == 'update' for c in calls_in_func(bc))
+    new_of = {norm(c.func)[:-len('.__new__')] for c in calls_in_func(bc) if norm(c.func).endswith('.__new__')}
+    if bc.parent is not None and isinstance(mod.constants.get('_bundle_constructor'), ast.Call):
+        # made by a factory: the class it instantiates is the argument the factory was called with
+        fcall = mod.constants['_bundle_constructor']
+        bound = dict(zip(bc.parent.params, [norm(a) for a in fcall.args]))
+        bound.update({k.arg: norm(k.value) for k in fcall.keywords if k.arg})
+        new_of = {bound.get(x, x) for x in new_of}
+    ok = 'Bundle' in new_of and any(last_name(c) == 'update' for c in calls_in_func(bc))
     chk.ob('TAB-yaml', 'persistence._bundle_constructor', ok, 'the constructor rebuilds a Bundle and fills it with the mapping', kind='bundle-constructor')
     ur, uc = _fn('uuid_representer'), _fn('uuid_constructor')
     if ur is not None and uc is not None:
